@@ -21,10 +21,11 @@ import (
 // Step is one connection of a history after the prelude: the edit applied before it, the delivery
 // mask and the adversary.
 type Step struct {
-	Edits  []Edit
-	Mask   world.Mask
-	Tamper string
-	GiveUp time.Duration // > 0: both applications abandon this connection's handshake after that much fake time
+	Edits       []Edit
+	Mask        world.Mask
+	Tamper      string
+	GiveUp      time.Duration // > 0: both applications abandon this connection's handshake after that much fake time
+	SlowSetJunk bool          // the server's store is slow in Set; an undecodable record reaches the server meanwhile
 }
 
 // Plan is one enumerated history.
@@ -50,6 +51,9 @@ func (p Plan) ID() string {
 		}
 		if s.Tamper != "" {
 			x += "!" + s.Tamper
+		}
+		if s.SlowSetJunk {
+			x += "!junk-during-slow-set"
 		}
 		if s.GiveUp > 0 {
 			x = strings.Replace(x, "@"+s.Mask.String(), fmt.Sprintf("@blackout[%s..]", s.Mask[0]), 1) + fmt.Sprintf("~giveup%s", s.GiveUp)
@@ -96,6 +100,7 @@ func runPlan(t *testing.T, p *world.PKI, pl Plan, seed uint64) run.Outcome {
 				tam = MakeTamperer(h, st.Tamper, &failed)
 			}
 			h.GiveUp = st.GiveUp
+			h.SlowSetJunk = st.SlowSetJunk
 			r, err := h.Connect(w, p, i+1, st.Mask, st.Tamper, tam, tr)
 			if err != nil {
 				fail(fmt.Sprintf("conn%d: %v", i+1, err))
@@ -259,6 +264,15 @@ func Plans(thorough bool) ([]Plan, map[string]any) {
 				}
 			}
 		}
+	}
+	// R: the same junk record, delivered while the server's store is inside a slow Set call of a full handshake
+	// (an application-supplied store is part of the environment: it may block), then a clean connection
+	for _, c := range cfgs {
+		if c.MTU != 0 {
+			continue
+		}
+		out = append(out, Plan{"R", c, []Step{{Edits: []Edit{EdDelC}, SlowSetJunk: true}, {Edits: []Edit{EdNone}}}})
+		out = append(out, Plan{"R", c, []Step{{Edits: []Edit{EdDelC, EdDelS}, SlowSetJunk: true}, {Edits: []Edit{EdNone}}, {Edits: []Edit{EdNone}}}})
 	}
 	// J: an undecodable unauthenticated record during a FULL handshake (the client's session is deleted
 	// first), then a clean connection: what a fatal alert leaves in the stores
